@@ -29,6 +29,14 @@
 #include <kernel/solver/richardson.hpp>
 #include <kernel/solver/jacobi_precond.hpp>
 #include <kernel/solver/multigrid.hpp>
+#include <kernel/util/dist.hpp>
+#include <kernel/lafem/vector_mirror.hpp>
+#include <kernel/global/gate.hpp>
+#include <kernel/global/muxer.hpp>
+#include <kernel/global/vector.hpp>
+#include <kernel/global/matrix.hpp>
+#include <kernel/global/filter.hpp>
+#include <kernel/global/transfer.hpp>
 #include <algorithm>
 #include <cmath>
 #include <deque>
@@ -181,6 +189,67 @@ namespace
         rates.push_back(r);
         mg->done();
       }
+      // ---- the same multigrid through the Global:: containers on one process (Global::Matrix / Vector / Filter / Transfer
+      // with real gates on the world communicator, no muxer): must reproduce the result of the local containers
+      {
+        typedef LAFEM::VectorMirror<DataType, Index> Mir;
+        typedef Global::Gate<VectorType, Mir> GateT;
+        typedef Global::Vector<VectorType, Mir> GVec;
+        typedef Global::Matrix<MatrixType, Mir, Mir> GMat;
+        typedef Global::Filter<FilterType, Mir> GFil;
+        typedef Global::Transfer<TransferType, Mir> GTra;
+        typedef Solver::MultiGridHierarchy<GMat, GFil, GTra> GHier;
+        Dist::Comm comm = Dist::Comm::world();
+        std::deque<GateT> gates; std::deque<GMat> gmats; std::deque<GFil> gfils; std::deque<GTra> gtras;
+        for(std::size_t i = 0; i < levels.size(); ++i)
+        {
+          Level& lvl = *levels[i];
+          gates.emplace_back(comm);
+          gates.back().compile(VectorType(lvl.matrix.rows()));
+          gmats.emplace_back(&gates.back(), &gates.back(), lvl.matrix.clone(LAFEM::CloneMode::Shallow));
+          gfils.emplace_back(lvl.filter.clone());
+          if(i + 1 < levels.size()) gtras.emplace_back(nullptr, lvl.transfer.get_mat_prol().clone(LAFEM::CloneMode::Shallow), lvl.transfer.get_mat_rest().clone(LAFEM::CloneMode::Shallow));
+        }
+        auto ghier = std::make_shared<GHier>(levels.size());
+        for(std::size_t i = 0; i < levels.size(); ++i)
+        {
+          auto cg = Solver::new_pcg(gmats[i], gfils[i], Solver::new_jacobi_precond(gmats[i], gfils[i]));
+          cg->set_tol_rel(1e-13); cg->set_max_iter(2000); cg->set_plot_mode(Solver::PlotMode::none);
+          if(i + 1 < levels.size())
+          {
+            auto smoother = Solver::new_richardson(gmats[i], gfils[i], cfg.omega, Solver::new_jacobi_precond(gmats[i], gfils[i]));
+            smoother->set_min_iter(Index(cfg.steps)); smoother->set_max_iter(Index(cfg.steps)); smoother->set_plot_mode(Solver::PlotMode::none);
+            ghier->push_level(gmats[i], gfils[i], gtras[i], smoother, smoother, smoother, cg);
+          }
+          else ghier->push_level(gmats[i], gfils[i], cg);
+        }
+        ghier->init();
+        const int nl = int(levels.size());
+        double worst = 0.0;
+        for(int top = 0; top + 1 < nl; top += (nl > 3 ? nl - 2 : 1)) // finest and second coarsest top level
+        {
+          const auto cyc = cfg.cycle == 0 ? Solver::MultiGridCycle::V : cfg.cycle == 1 ? Solver::MultiGridCycle::F : Solver::MultiGridCycle::W;
+          const auto acg = cfg.adapt == 0 ? Solver::MultiGridAdaptCGC::Fixed : cfg.adapt == 1 ? Solver::MultiGridAdaptCGC::MinEnergy : Solver::MultiGridAdaptCGC::MinDefect;
+          auto mgl = Solver::new_multigrid(hier, cyc, top, -1); mgl->set_adapt_cgc(acg); mgl->init();
+          auto mgg = Solver::new_multigrid(ghier, cyc, top, -1); mgg->set_adapt_cgc(acg); mgg->init();
+          Level& T = *levels[std::size_t(top)];
+          const Index n = T.matrix.rows();
+          VectorType d(n), xl(n);
+          for(Index i = 0; i < n; ++i) d(i, double(int((i * 31u + 7u) % 19u) - 9) / 8.0);
+          T.filter.filter_def(d);
+          mgl->apply(xl, d);
+          GVec gd(&gates[std::size_t(top)], d.clone()), gx(&gates[std::size_t(top)], VectorType(n, 77.0));
+          mgg->apply(gx, gd);
+          n_apply += 2;
+          double nx = 0.0, e = 0.0;
+          for(Index i = 0; i < n; ++i) { nx = std::max(nx, std::fabs(xl(i))); const double di = std::fabs(gx.local()(i) - xl(i)); if(!(di <= e)) e = di; }
+          const double rel = (nx > 0.0 && std::isfinite(e)) ? e / nx : 1e300;
+          if(!(rel <= worst)) worst = rel;
+          mgg->done(); mgl->done();
+        }
+        ghier->done();
+        Rate r; r.top = -1; r.crs = 4; r.rho = worst; rates.push_back(r);
+      }
       // ---- operators change, hierarchy re-initialised: MG(2A) d = MG(A) d / 2 (all sub-solvers are homogeneous of degree -1
       // in the matrix, the adaptive step lengths of degree 0); then values restored and a full symbolic+numeric re-init
       {
@@ -247,7 +316,7 @@ int main(int argc, char** argv)
   spec.assumptions = {
     "rho_bar per family is a fixed constant chosen from theory/measurement with margin (it does not depend on the number of levels); a slightly slower smoother cannot be flagged, only loss of level independence or divergence",
     "power iteration from one deterministic start vector; for the non-normal F-cycle operator the value is an estimate of the asymptotic rate",
-    "with adaptive CGC the iteration is nonlinear; the measured value is the observed asymptotic reduction", "re-initialisation history per (family, steps, CGC mode, cycle): apply; scale all level matrices by 2; done/init numeric; apply (must be half); restore; full done/init; apply (must be the first result)"};
+    "with adaptive CGC the iteration is nonlinear; the measured value is the observed asymptotic reduction", "the same hierarchy is also run through Global::Matrix/Vector/Filter/Transfer (real gates on the world communicator of the single process, no muxer) and must reproduce the local result; ghost/muxed operation needs MPI (C13)", "re-initialisation history per (family, steps, CGC mode, cycle): apply; scale all level matrices by 2; done/init numeric; apply (must be half); restore; full done/init; apply (must be the first result)"};
   spec.deadline_quick_s = 540;
 
   return verif::run(spec, argc, argv, [&](verif::Ctx& c) {
@@ -282,6 +351,7 @@ int main(int argc, char** argv)
       for(auto& r : rates) if(r.top < 0)
       {
         if(r.crs == 2) c.check(r.rho <= 1e-11, "matrices scaled by 2 + numeric re-init: MG(2A)d != MG(A)d/2; " + key, [&]{ char m[120]; snprintf(m, sizeof m, "relative difference %.3e", r.rho); return std::string(m); });
+        if(r.crs == 4) { c.check(r.rho <= 1e-11, "multigrid through Global::Matrix/Vector/Filter/Transfer differs from the local containers; " + key, [&]{ char m[120]; snprintf(m, sizeof m, "relative difference %.3e", r.rho); return std::string(m); }); c.count(r.rho == 0.0 ? "global_container_results_bitwise" : "global_container_results_within_1e-11"); continue; }
         if(r.crs == 3) c.check(r.rho <= 1e-11, "values restored + full re-init: result differs from the first application; " + key, [&]{ char m[120]; snprintf(m, sizeof m, "relative difference %.3e", r.rho); return std::string(m); });
         c.count(r.rho == 0.0 ? "reinit_results_bitwise" : "reinit_results_within_1e-11");
       }
